@@ -61,18 +61,18 @@ PROPS = {
                           'argument and soln.x lie inside the caller\'s bounds; with projections the bound box is the last projector (closure applied symbolically).',
             'level_note': BOX_NOTE,
             'not_decided': ['NaN/inf steps (A-nan precondition on the argument of as_absolute_coordinates; numerics of the step solvers)']},
-    'C13': {'bundles': ['vecs'], 'level': 'proof',
+    'C13': {'bundles': ['vecs', 'trlin'], 'level': 'proof',
             'level_text': 'Partial claim: in ctrsbox_pgd / ctrsbox_sfista / ctrsbox_linear the trust-region ball is appended LAST to the projection list (closure recognised and tied to '
                           'util.pball\'s verified contract), Dykstra\'s result is an output of the last projector whenever a sweep ran, so every returned step has ||d|| <= Delta in real '
                           'arithmetic (loop invariant on the real loops); ctrsbox_geometry returns one of two such steps; in Controller.trust_region_step the regularised step handed back has '
                           'h(x) - m(d) >= 0 because the zero step is substituted otherwise and m(0) == h(x) (contract of model_value). ball_step (last move of the bound-constrained '
                           'geometry step): alpha >= 0 and, unless ||g|| < 1e-14, ||x0 + alpha*g|| == Delta exactly in real arithmetic (nonlinear obligation on the real body) - a necessary '
                           'piece of the optimality clause. trsbox_geometry / ctrsbox_geometry: the two candidates are the linear problem for g and for -g (on the box shifted to xbase), and the one with the larger '
-                          '|c + g.s| is returned. The convex step solvers are entered only with a finite model gradient and Hessian (call-site obligation).',
+                          '|c + g.s| is returned; trsbox_linear returns its full step only after its scan has covered every free coordinate (loop invariant; domain Cd with a set-valued list). The convex step solvers are entered only with a finite model gradient and Hessian (call-site obligation).',
             'level_note': 'Domain V: reals, opaque vectors with vector-space / norm axioms, exact projector contract for caller-supplied projections (A-callback). NOT decided: box/ball feasibility to 1e-12 '
                           'and GLOBAL OPTIMALITY to 1e-6 of trsbox_geometry / trsbox_linear (active-set loop, nonlinear invariants over symbolic dimension) and the (1+1e-8) rounding slack. '
                           'A-params sub-range: func_tol.max_iters >= 1 (0 is accepted by the parameter check and leaves a local unbound in ctrsbox_sfista).',
-            'not_decided': ['trsbox_linear (active-set loop): box/ball feasibility to 1e-12 and optimality of each candidate to 1e-6', 'floating-point slack (1+1e-8)']},
+            'not_decided': ['trsbox_linear (active-set loop): feasibility on its other return paths and optimality of each candidate to 1e-6', 'floating-point slack (1+1e-8)']},
     'C14': {'bundles': ['box', 'ledger', 'coord', 'dirlen'], 'level': 'proof',
             'level_text': 'Partial claim: (1) both random-direction generators clip every returned direction into [lower, upper] exactly (binary64, loop invariant over the final clipping loop '
                           'with a ghost column index: an off-by-one in that loop is refuted); (2) every initial point that is evaluated is produced by as_absolute_coordinates and therefore lies '
